@@ -119,11 +119,10 @@ func (ex *Exec) ghostGet(st *State, name string) T {
 	if t, ok := st.ghost[name]; ok {
 		return t
 	}
-	sort := SInt
 	if strings.HasPrefix(name, "held:") || strings.HasPrefix(name, "wheld:") {
-		sort = SBool
+		return TFalse // a lock not mentioned by `held` is not held at entry
 	}
-	return ex.vc.constant("ghost."+sanitize(name)+"!0", sort)
+	return ex.vc.constant("ghost."+sanitize(name)+"!0", SInt)
 }
 
 // merge joins predecessor states at a block entry.
